@@ -166,14 +166,21 @@ impl Universe {
             ctx.rep
                 .inconclusive("settlement failpoints not reached (hook H8 missing in this build?)");
         }
-        let mut done = 0usize;
-        'outer: for (name, n) in &sites {
+        // hit-index-major order: a budget cut drops the highest hit indexes of
+        // every site instead of dropping whole sites
+        let mut attempts: Vec<(u64, &String)> = Vec::new();
+        for (name, n) in &sites {
             for idx in 0..*n {
-                if done >= budget {
-                    ctx.rep.count("failpoint_budget_truncations", 1);
-                    break 'outer;
-                }
-                done += 1;
+                attempts.push((idx, name));
+            }
+        }
+        attempts.sort();
+        if attempts.len() > budget {
+            ctx.rep.count("failpoint_budget_truncations", 1);
+            attempts.truncate(budget);
+        }
+        {
+            for (idx, name) in attempts {
                 failpoint::reset();
                 failpoint::arm(name, idx, failpoint::Action::Error);
                 let (mut rt, mut pv) = (self.rt.clone(), self.pv.clone());
